@@ -133,7 +133,9 @@ func (node *Node) popAndProcessCacheQueue() int {
 			node.sendTransactionsToNode([]crypto.Hash{hash}, nbor)
 			continue
 		}
-		batchSize += tx.ValidatedSize()
+		// bundles carry the signed envelopes, which can be far larger than the
+		// unsigned payload that ValidatedSize reports
+		batchSize += len(tx.Marshal())
 		if tx.IsSnapshotBatchable() && batchSize < p2p.TransportMessageMaxSize*2/3 {
 			batch = append(batch, hash)
 			continue
